@@ -174,12 +174,14 @@ def c05(rep, tier, seed):
     suite_vec.gen(rep, tier, ["elem"], C05_CL)
     suite_table.gen(rep, tier, ["arith"], ("table_arith", "table_width_mismatch"))
     suite_table.enumerated(rep, "methods", ("broadcast",))
+    suite_vec.trace(rep, tier, seed, C05_CL, ops=("elem",))
 
 
 def c06(rep, tier, seed):
     rep.assumptions += VEC_ASSUME + ["all-None min/max/mean/stdev: only 'None is not treated as a value' is demanded"]
     suite_vec.mc(rep, tier)
     suite_vec.gen(rep, tier, ["na", "elem"], C06_CL)
+    suite_vec.trace(rep, tier, seed, C06_CL, ops=("elem", "na"))
 
 
 def c07(rep, tier, seed):
@@ -187,6 +189,7 @@ def c07(rep, tier, seed):
     suite_vec.mc(rep, tier)
     suite_vec.gen(rep, tier, ["slice", "mask", "int", "elem"], C07_CL)
     suite_table.gen(rep, tier, ["select"], ("missing_column", "select_cols", "string_index", "commute"))
+    suite_vec.trace(rep, tier, seed, C07_CL, ops=("slice", "mask"))
 
 
 def c08(rep, tier, seed):
@@ -194,6 +197,7 @@ def c08(rep, tier, seed):
     suite_vec.mc_assign(rep)
     suite_vec.gen(rep, tier, ["assign", "atype"], C08_CL)
     suite_table.gen(rep, tier, ["tassign"], C08_CL + ("table_atomic", "table_assign_cells"))
+    suite_vec.trace(rep, tier, seed, C08_CL, ops=("assign",))
     suite_heap.gen(rep, tier, "tables", ("contents@target", "write_error", "setattr_error"))
 
 
